@@ -157,6 +157,7 @@ fn differential<const L: usize>() {
 #[kani::unwind(12)]
 fn c11_1_differential_parse_40() {
     differential::<40>();
+    kani::cover!(true, "end of harness reachable (assumptions satisfiable, no unconditional failure)");
 }
 
 // @verif id=C11.1t props=C11,C10 tier=thorough timeout=3400 mem=14
@@ -167,6 +168,7 @@ fn c11_1_differential_parse_40() {
 #[kani::unwind(24)]
 fn c11_1t_differential_parse_64() {
     differential::<64>();
+    kani::cover!(true, "end of harness reachable (assumptions satisfiable, no unconditional failure)");
 }
 
 // @verif id=C11.2 props=C11,C10 tier=quick timeout=900
